@@ -195,6 +195,9 @@ pub fn check(c: &Case3, st: &mut Stats, p: &Paths, budget: usize) -> CheckResult
                 if m.flags.jumps > 0 {
                     st.class("level 2 partial: run takes jumps");
                 }
+                if m.flags.heart_returns > 0 {
+                    st.class("level 2 partial: run takes a ♡ return");
+                }
                 if m.flags.fraction_seen || m.flags.nan_seen || m.flags.negative_seen {
                     st.class("level 2 partial: fraction/negative/NaN values in play");
                 }
@@ -219,6 +222,50 @@ pub fn idiom_print_special() -> BoxedStrategy<Vec<RCmd>> {
         .prop_flat_map(|(h, d)| (Just((h, d)), 1usize..=2))
         .prop_map(|((h, d), target)| vec![RCmd::new(0, h, d), RCmd::new(1, 1, target)])
         .boxed()
+}
+
+/// prefix: one command registers two different labels (visited twice with different outcomes) behind several plain commands;
+/// residual: input-driven conditional jumps to both labels (each round consumes input, so the run ends at end of input)
+pub fn scenario_two_labels(extra_plain: usize, c: usize) -> Vec<RCmd> {
+    let ps = |a: &str| crate::refparse::parse_shape(a).unwrap();
+    let big = c + 100;
+    let (bh, bd) = if big % 2 == 0 { (2, big / 2) } else { (1, big) };
+    let mut v = Vec::new();
+    for _ in 0..extra_plain {
+        v.push(RCmd::new(0, 1, 0));
+        v.push(RCmd::new(1, 1, 4));
+    }
+    // pushed bottom -> top: b3 = 5, a3 = 1, b2 = 7, a2 = 1, b1 = c + 100, a1 = 1
+    for (h, d) in [(1usize, 5usize), (1, 1), (1, 7), (1, 1), (bh, bd), (1, 1)] {
+        v.push(RCmd::new(0, h, d));
+    }
+    v.push(RCmd::with_area(1, 1, c, ps("♥?💖"))); // W: first visit registers 💖, second visit ♥
+    v.push(RCmd::with_area(1, 1, c, ps("💖?"))); // U: jumps back to W once
+    v.push(RCmd::new(5, 1, 0)); // boundary: select stack 0
+    v.push(RCmd::new(1, 1, 1));
+    v.push(RCmd::with_area(1, 1, c, ps("♥?")));
+    v.push(RCmd::new(1, 1, 1));
+    v.push(RCmd::with_area(1, 1, c, ps("💖?")));
+    v.push(RCmd::new(1, 1, 1));
+    v
+}
+
+/// prefix: a jump is taken (so a ♡ target is pending) behind plain commands; residual: ♡ taken while the next input character is small
+pub fn scenario_heart_return(extra_plain: usize, c: usize) -> Vec<RCmd> {
+    let ps = |a: &str| crate::refparse::parse_shape(a).unwrap();
+    let mut v = Vec::new();
+    for _ in 0..extra_plain {
+        v.push(RCmd::new(0, 1, 0));
+    }
+    v.push(RCmd::new(0, 1, 0));
+    v.push(RCmd::new(0, 1, 0));
+    v.push(RCmd::with_area(0, 2, 4, ps("♥"))); // X: push 8, register (8,♥)
+    v.push(RCmd::with_area(1, 2, 4, ps("♥?"))); // Y: jumps to X once (value 0 < 8), later falls through
+    v.push(RCmd::new(5, 1, 0)); // boundary
+    v.push(RCmd::new(1, 1, 1)); // print a character
+    v.push(RCmd::with_area(1, 1, c, ps("♡?"))); // ♡ back to Y while the next character is below c
+    v.push(RCmd::new(1, 1, 1));
+    v
 }
 
 fn strategy(max_len: usize) -> BoxedStrategy<Case3> {
@@ -267,7 +314,18 @@ fn strategy(max_len: usize) -> BoxedStrategy<Case3> {
             a
         });
     let general = program_with_jumps(&Profile { many_stacks: true, big_counts: false, ..Profile::general(max_len) });
-    (prop_oneof![3 => split.boxed(), 2 => general.boxed()], stdin_text(), prop_oneof![2 => Just(0u8), 2 => Just(1u8), 5 => Just(2u8)])
+    let tail = program_with_jumps(&Profile { many_stacks: true, big_counts: false, idioms: false, ..Profile::general(4) });
+    let scenario = (prop_oneof![
+        (0usize..3, 60usize..130).prop_map(|(e, c)| scenario_two_labels(e, c)),
+        (0usize..4, 60usize..130).prop_map(|(e, c)| scenario_heart_return(e, c)),
+    ], tail, any::<bool>())
+        .prop_map(|(mut sc, t, with_tail)| {
+            if with_tail {
+                sc.extend(t);
+            }
+            sc
+        });
+    (prop_oneof![6 => split.boxed(), 4 => general.boxed(), 3 => scenario.boxed()], stdin_text(), prop_oneof![2 => Just(0u8), 2 => Just(1u8), 5 => Just(2u8)])
         .prop_map(|(cmds, stdin, level)| Case3 { prog: ProgCase { cmds, stdin }, level })
         .boxed()
 }
@@ -307,7 +365,8 @@ pub fn gates(out: &Outcome, tier: Tier) -> Vec<String> {
         ("level 2: prefix ends in an area-carrying command", 15),
         ("level 2: prefix ends area-less", 60),
         ("level 2: pending ♡ target at the boundary", 4),
-        ("level 2 partial: run takes jumps", 15),
+        ("level 2 partial: run takes jumps", 40),
+        ("level 2 partial: run takes a ♡ return", 15),
         ("level 2 partial: fraction/negative/NaN values in play", 60),
         ("area-carrying commands: 3-7", 100),
         ("area-carrying commands: 8+", 20),
